@@ -404,6 +404,19 @@ impl TransformerContext {
         previous
     }
 
+    /// The element `^` stands for right now (see `swap_prev_element`).
+    pub fn prev_element_here(&self) -> Option<SvgElement> {
+        self.prev_element.clone()
+    }
+
+    /// Make `^` stand for the given element, returning what it stood for.
+    ///
+    /// Like the variables, "the previous element" of a deferred tag is the one at
+    /// its place in the document, not whichever element was evaluated last.
+    pub fn swap_prev_element(&mut self, prev: Option<SvgElement>) -> Option<SvgElement> {
+        std::mem::replace(&mut self.prev_element, prev)
+    }
+
     pub fn push_element(&mut self, el: &SvgElement) {
         let attrs = el.get_attrs();
         self.element_stack.push(el.clone());
